@@ -386,7 +386,7 @@ def check_C11(tier, seed, t0):
         trace_module="TraceKernel.tla", trace_cfg="TraceKernel.cfg", driver_of=lambda d: "drv_matop", extra_cov=dict(exhaustive=True))
 
 
-FIXED_AUX = {"C17": ["mode=lobpcg;count=1;seed=5;kfix=1"]}
+FIXED_AUX = {"C17": ["mode=lobpcg;count=1;seed=5;kfix=1"], "C15": ["mode=davidson;count=1;seed=3;dec=1"]}
 
 
 def aux_flow(prop, tier, seed, t0, mode, count, own, models, neg, notes):
